@@ -122,8 +122,8 @@ func runC06(c *core.Ctx) {
 			}
 		},
 	})
-	c.CasesPar("conn", c.N(3000, 12000), 4, func(k *core.Case) { c06Conn(k) })
-	c.CasesPar("transport", c.N(2400, 9000), 4, func(k *core.Case) { c06Transport(k) })
+	c.CasesPar("conn", c.N(3000, 200000), 4, func(k *core.Case) { c06Conn(k) })
+	c.CasesPar("transport", c.N(2400, 150000), 4, func(k *core.Case) { c06Transport(k) })
 }
 
 type c06Call struct {
